@@ -306,8 +306,8 @@ func (r *Run) Finish(rule string) int {
 }
 
 var (
-	numRe  = regexp.MustCompile(`-?\d+`)
-	hexRe  = regexp.MustCompile(`0x[0-9a-fA-F]+`)
+	numRe = regexp.MustCompile(`-?\d+`)
+	hexRe = regexp.MustCompile(`0x[0-9a-fA-F]+`)
 )
 
 // PanicKey builds a narrow key from a recovered panic: first library frame and
